@@ -20,7 +20,7 @@ func init() {
 		Explanation: "(R1) mirror pairs: for every type of pkg/config/v2 with both MarshalJSON and UnmarshalJSON, the relation {derived field <- shadow field} extracted from the SSA of UnmarshalJSON and the relation {shadow field <- derived field} extracted from MarshalJSON must cover the same (derived, shadow) pairs, and every `json:\"-\"` field of the type must appear in both or be listed runtime-only with a reason. " +
 			"(R2) tag lint over the type graph reachable from the dumped roots: no two fields of one struct (after embedding, at the winning depth) share a JSON key (encoding/json would drop both silently), no struct inherits a promoted MarshalJSON/UnmarshalJSON from an embedded field without defining its own (the promoted method would hijack the outer encoding). " +
 			"(R3) the persisted dump reassembles every part of the effective model: transferConfig reads every field of effectiveConfig and stores listeners, routers (with their original path), clusters, cluster path and extends into the MOSNConfig it marshals. " +
-			"(R4) producing the dump writes only memory allocated in the call. (R6) a MarshalJSON of pkg/config/v2 stores a zero value into its receiver copy only under emptiness guards (len(x) cmp 0, x cmp nil, x cmp \"\"), or when reflect.DeepEqual with the zero value established that nothing is lost. (R3, distinct elements) a pointer appended or stored inside a loop of transferConfig/DumpJSON designates storage allocated in that loop iteration. (R7) the read-back obligation on recorded host lists, shared with C12.R1.",
+			"(R4) producing the dump writes only memory allocated in the call. (R6) a MarshalJSON of pkg/config/v2 stores a zero value into its receiver copy only under emptiness guards (len(x) cmp 0, x cmp nil, x cmp \"\"), or when reflect.DeepEqual with the zero value established that nothing is lost. (R3, distinct elements) a pointer appended or stored inside a loop of transferConfig/DumpJSON designates storage allocated in that loop iteration. (R7) the read-back obligation on recorded host lists, shared with C12.R1. (R1 same-wire-type) every successful path of a custom UnmarshalJSON passes json.Unmarshal with a target of the type its MarshalJSON hands to json.Marshal.",
 		Run: runC19,
 	})
 }
@@ -79,6 +79,7 @@ func runC19(c *Ctx) {
 		}
 		npairs++
 		c19Lossless(c, mar, key)
+		c19SameWireType(c, mar, unm, key)
 		// derived fields
 		var derived []string
 		for i := 0; i < st.NumFields(); i++ {
